@@ -41,7 +41,44 @@ def setref(definer, target, mode):
     return py("m.%s.set_ref('t', m.%s, %r)" % (definer, target, mode))
 
 
+MIRROR_DEFINERS = {"A.B.C.E": "D.C.E", "A.B.C": "D.C"}
+
+
+def build_mirror(root):
+    """Definer two / three levels below the root of a mirrored tree: D(A.B), D.C(A.B.C), D.C.E(A.B.C.E)."""
+    reset_world()
+    m = mx.new_model("M")
+    env = {"m": m}
+    lines = [
+        "Out = m.new_space('Out'); Out.new_cells('o', formula='lambda: 1')",
+        "A = m.new_space('A'); B = A.new_space('B'); C = B.new_space('C'); E = C.new_space('E')",
+        "B.new_cells('x', formula='lambda: 2'); C.new_cells('x', formula='lambda: 3'); E.new_cells('x', formula='lambda: 4')",
+    ]
+    subs = [
+        "D = m.new_space('D', bases=[m.A.B], formula='lambda i: None')",
+        "DC = m.D.new_space('C', bases=[m.A.B.C])",
+        "DCE = m.D.C.new_space('E', bases=[m.A.B.C.E])",
+    ]
+    for l in lines:
+        exec(l, env)
+    ref = setref(root["definer"], root["target"], root["mode"])
+    if root["order"] == "ref-first":
+        ob = O.apply_impl(m, ref)
+        for l in subs:
+            try:
+                exec(l, env)
+            except Exception:
+                pass
+    else:
+        for l in subs:
+            exec(l, env)
+        ob = O.apply_impl(m, ref)
+    return m, ob
+
+
 def build(root):
+    if root.get("family") == "mirror":
+        return build_mirror(root)
     reset_world()
     m = mx.new_model("M")
     env = {"m": m}
@@ -54,6 +91,7 @@ def build(root):
     subs = [
         "Sub = m.new_space('Sub', bases=[m.A], formula='lambda i: None')",
         "SubSub = m.new_space('SubSub', bases=[m.Sub])",
+        "Sub2 = m.new_space('Sub2', bases=[m.A])",
     ]
     for l in lines:
         exec(l, env)
@@ -97,6 +135,10 @@ def expected_static(definer, deriver, target, mode):
     inside = target == definer or target.startswith(definer + ".")
     if not inside and mode == "relative":
         return None     # documented to be an error (no relative counterpart)
+    if not inside and target.split(".")[0] == definer.split(".")[0]:
+        # an ancestor / cousin of the definer inside the same top-level tree: whether it lies "outside the
+        # tree" depends on which tree is mirrored; the statement does not fix it - not judged
+        return None
     if not inside:
         # outside the definer's tree: keeps denoting the original object. But for a nested definer (A.T) a
         # target in the enclosing tree (A, A.x) is 'outside' only w.r.t. A.T; the deriver here derives from the
@@ -163,10 +205,22 @@ def judge(m, root, case, viols, where="live"):
 
     # the definer itself always denotes the target
     see(definer + ".t", target, "definer")
+    if root.get("family") == "mirror":
+        deriver = MIRROR_DEFINERS[definer]
+        if safe(lambda: "t" in eval("m." + deriver, {"m": m})._own_refs) is True:
+            exp = expected_static(definer, deriver, target, mode)
+            see(deriver + ".t", exp, "static-nested:" + mode)
+            mode_of(deriver, "refmode-static")
+            if exp is not None and safe(lambda: m.D.formula is not None) is True:
+                item = "D[1]" + deriver[1:]
+                see(item + ".t", expected_item("D", "D(1)", exp, mode), "item-nested:" + mode)
+        return nchecked
     if definer == "A":
-        for sub in ("Sub", "SubSub"):
+        for sub in ("Sub", "SubSub", "Sub2"):
             if safe(lambda: "t" in eval("m." + sub, {"m": m})._own_refs and
-                    m.A in eval("m." + sub, {"m": m}).bases) is True:
+                    m.A in eval("m." + sub, {"m": m}).bases and
+                    eval("m." + sub, {"m": m})._get_object("t", as_proxy=True).is_derived() and
+                    (sub != "SubSub" or m.Sub._get_object("t", as_proxy=True).is_derived())) is True:
                 see(sub + ".t", expected_static("A", sub, target, mode), "static:" + mode)
                 mode_of(sub, "refmode-static")
         # ItemSpace of the definer
@@ -174,7 +228,8 @@ def judge(m, root, case, viols, where="live"):
             see("A[1].t", expected_item("A", "A(1)", target, mode), "item:" + mode)
             see("A(2).t", expected_item("A", "A(2)", target, mode), "item:" + mode)
         # ItemSpace of a sub: the sub's own (derived) binding, rebound inside the sub's dynamic tree
-        if safe(lambda: "t" in m.Sub._own_refs and m.A in m.Sub.bases and m.Sub.formula is not None) is True:
+        if safe(lambda: "t" in m.Sub._own_refs and m.A in m.Sub.bases and m.Sub.formula is not None
+                and m.Sub._get_object("t", as_proxy=True).is_derived()) is True:
             sub_static = expected_static("A", "Sub", target, mode)
             if sub_static is not None:
                 see("Sub[1].t", expected_item("Sub", "Sub(1)", sub_static, mode), "item-of-sub:" + mode)
@@ -247,12 +302,21 @@ def run_history(root, hist):
 
 def alphabet(root):
     d = root["definer"]
+    if root.get("family") == "mirror":
+        ops = []
+        for mode in MODES:
+            for t in (d, d + ".x", "Out", "A.B"):
+                ops.append(setref(d, t, mode))
+        ops += [py("del m.%s.t" % d), py("m.D[1]", False), py("m.D.clear_items()"), py("WRITEREAD:dir"),
+                py("m.%s.new_cells('w', formula='lambda: 0')" % d)]
+        return ops
     targets = TARGETS_A if d == "A" else TARGETS_T
     ops = []
     for mode in MODES:
         for t in targets:
             ops.append(setref(d, t, mode))
     ops += [py("del m.%s.t" % d), py("m.Sub.remove_bases(m.A)"), py("m.Sub.add_bases(m.A)"),
+            py("m.Sub.set_ref('t', m.Out, 'absolute')"), py("del m.Sub.t"),
             py("m.A.clear_items()"), py("m.A[1]", False), py("m.Sub[1]", False), py("m.A.new_cells('w', formula='lambda: 0')"),
             py("m.A.x.rename('x')"), py("WRITEREAD:dir"), py("WRITEREAD:zip")]
     return ops
@@ -266,6 +330,9 @@ def roots(tier):
                 out.append({"definer": "A", "target": t, "mode": mode, "order": order})
             for t in TARGETS_T:
                 out.append({"definer": "A.T", "target": t, "mode": mode, "order": order})
+            for d in MIRROR_DEFINERS:
+                for t in (d, d + ".x"):
+                    out.append({"family": "mirror", "definer": d, "target": t, "mode": mode, "order": order})
     return out
 
 
@@ -309,13 +376,28 @@ def shrink_candidates(case):
 
 def script(case):
     r = case["root"]
+    if r.get("family") == "mirror":
+        L = ["import modelx as mx", "m = mx.new_model('M')",
+             "Out = m.new_space('Out'); Out.new_cells('o', formula='lambda: 1')",
+             "A = m.new_space('A'); B = A.new_space('B'); C = B.new_space('C'); E = C.new_space('E')",
+             "B.new_cells('x', formula='lambda: 2'); C.new_cells('x', formula='lambda: 3'); E.new_cells('x', formula='lambda: 4')"]
+        subs = ["D = m.new_space('D', bases=[m.A.B], formula='lambda i: None')",
+                "DC = m.D.new_space('C', bases=[m.A.B.C])", "DCE = m.D.C.new_space('E', bases=[m.A.B.C.E])"]
+        ref = setref(r["definer"], r["target"], r["mode"])["code"]
+        L += ([ref] + subs) if r["order"] == "ref-first" else (subs + [ref])
+        for op in case["history"]:
+            if not op["code"].startswith("WRITEREAD"):
+                L.append("try:\n    %s\nexcept Exception as e:\n    print('raised', type(e).__name__, e)" % op["code"])
+        for e in (r["definer"] + ".t", MIRROR_DEFINERS[r["definer"]] + ".t", "D[1]" + MIRROR_DEFINERS[r["definer"]][1:] + ".t"):
+            L.append("try:\n    print(%r, m.%s)\nexcept Exception as e:\n    print(%r, 'raised', type(e).__name__, e)" % (e, e, e))
+        return "\n".join(L)
     L = ["import modelx as mx", "m = mx.new_model('M')",
          "Out = m.new_space('Out'); Out.new_cells('o', formula='lambda: 1')",
          "AB = m.new_space('AB'); AB.new_cells('o', formula='lambda: 2')",
          "A = m.new_space('A', formula='lambda i: None'); A.new_cells('x', formula='lambda: 3')",
          "T = A.new_space('T'); T.new_cells('tc', formula='lambda: 4')"]
     subs = ["Sub = m.new_space('Sub', bases=[m.A], formula='lambda i: None')",
-            "SubSub = m.new_space('SubSub', bases=[m.Sub])"]
+            "SubSub = m.new_space('SubSub', bases=[m.Sub])", "Sub2 = m.new_space('Sub2', bases=[m.A])"]
     ref = setref(r["definer"], r["target"], r["mode"])["code"]
     L += ([ref] + subs) if r["order"] == "ref-first" else (subs + [ref])
     for op in case["history"]:
@@ -325,7 +407,7 @@ def script(case):
                      % ("zip" if k == "zip" else "write", ".zip" if k == "zip" else "", ".zip" if k == "zip" else ""))
         else:
             L.append("try:\n    %s\nexcept Exception as e:\n    print('raised', type(e).__name__, e)" % op["code"])
-    for e in ("A.t", "Sub.t", "SubSub.t", "A[1].t", "Sub[1].t", "A.T.t", "A[1].T.t"):
+    for e in ("A.t", "Sub.t", "SubSub.t", "Sub2.t", "A[1].t", "Sub[1].t", "A.T.t", "A[1].T.t"):
         L.append("try:\n    print(%r, m.%s)\nexcept Exception as e:\n    print(%r, 'raised', type(e).__name__, e)" % (e, e, e))
     return "\n".join(L)
 
